@@ -25,6 +25,7 @@ import (
 	"errors"
 	"fmt"
 	"io"
+	"os"
 	"runtime"
 	"strconv"
 	"strings"
@@ -631,6 +632,7 @@ func runProgress(cfg Cfg) {
 	}
 	pwNested(s)
 	pwCopyInto(s, rng)
+	pwOddDestinations(s, cfg)
 
 	for idx, sc := range scenarios {
 		res := runPwScenario(sc)
@@ -884,5 +886,103 @@ func pwCopyInto(s *Stream, rng *Rng) {
 		}
 		s.Evaluations++
 		s.Nontrivial(fmt.Sprintf("iocopy/%d", i))
+	}
+}
+
+// pwFlusher: a buffering destination whose Flush fails (as a bufio.Writer in front of a full disk would).
+type pwFlusher struct{ n int }
+
+func (f *pwFlusher) Write(p []byte) (int, error) { f.n += len(p); return len(p), nil }
+func (f *pwFlusher) Flush() error                { return pwErrScripted }
+
+// pwOddDestinations: destinations with more methods than Write - a file positioned somewhere in the middle
+// (io.Seeker), a buffering writer whose Flush fails - and a long run of writes nobody listens to.
+func pwOddDestinations(s *Stream, cfg Cfg) {
+	// (a) an *os.File that already holds data and is positioned at its end: progress counts what THIS writer passed on
+	if f, err := os.CreateTemp(cfg.Out, "pwseek"); err == nil {
+		defer os.Remove(f.Name())
+		f.Write(make([]byte, 1000))
+		pw := ioutil.NewProgressWriter(f)
+		sc := map[string]any{"scenario": "wrapped writer is an *os.File holding 1000 bytes, positioned at its end; 16 bytes written through the ProgressWriter"}
+		if pw.Size() != 0 {
+			s.Violate("size-not-sum", fmt.Sprintf("a new ProgressWriter around a file positioned at offset 1000 reports Size() = %d before any write", pw.Size()), sc)
+		}
+		n, _ := pw.Write(make([]byte, 16))
+		if pw.Size() != n {
+			s.Violate("size-not-sum", fmt.Sprintf("Size() = %d after the wrapped file reported %d bytes", pw.Size(), n), sc)
+		}
+		done := make(chan int, 1)
+		go func() {
+			last := -1
+			for v := range pw.Status() {
+				last = v
+			}
+			done <- last
+		}()
+		pw.Close()
+		select {
+		case last := <-done:
+			if last != n {
+				s.Violate("close-total", fmt.Sprintf("file destination: last value received %d, final total %d", last, n), sc)
+			}
+		case <-time.After(5 * time.Second):
+			s.Violate("not-closed", "file destination: channel not closed 5 s after Close", sc)
+		}
+		f.Close()
+		s.Evaluations++
+		s.Nontrivial("seekable-destination")
+	}
+	// (b) a destination with a failing Flush method: Close still delivers the total and closes the channel
+	{
+		fl := &pwFlusher{}
+		pw := ioutil.NewProgressWriter(fl)
+		pw.Write(make([]byte, 360))
+		sc := map[string]any{"scenario": "wrapped writer has a Flush() error method that fails; 360 bytes written, then Close"}
+		done := make(chan int, 1)
+		go func() {
+			last := -1
+			for v := range pw.Status() {
+				last = v
+			}
+			done <- last
+		}()
+		closed := make(chan struct{})
+		go func() { pw.Close(); close(closed) }()
+		select {
+		case last := <-done:
+			if last != 360 {
+				s.Violate("close-total", fmt.Sprintf("destination with a failing Flush: last value received %d, final total 360", last), sc)
+			}
+		case <-time.After(5 * time.Second):
+			s.Violate("not-closed", "destination with a failing Flush: the channel is still open 5 s after Close was called", sc)
+		}
+		s.Evaluations++
+		s.Nontrivial("flusher-destination")
+	}
+	// (c) 300 writes of 64 KiB (about 19 MiB) with nobody receiving: not one of them waits for a consumer. The bound
+	// is three orders of magnitude above what the writes take, and far below what any per-write wait would add up to.
+	{
+		sink := &pwSink{room: 1 << 40}
+		pw := ioutil.NewProgressWriter(sink)
+		buf := pwBigBuf(64 << 10)
+		t0 := time.Now()
+		slowest := time.Duration(0)
+		for i := 0; i < 300; i++ {
+			t1 := time.Now()
+			pw.Write(buf)
+			if d := time.Since(t1); d > slowest {
+				slowest = d
+			}
+		}
+		total := time.Since(t0)
+		if total > 2*time.Second {
+			s.Violate("write-blocked", fmt.Sprintf("300 writes of 64 KiB with no consumer took %v (slowest single write %v): writes wait although nobody is receiving", total.Round(time.Millisecond), slowest.Round(time.Millisecond)),
+				map[string]any{"scenario": "300 x Write(64 KiB), no consumer", "total_ms": total.Milliseconds()})
+		}
+		if pw.Size() != 300*(64<<10) {
+			s.Violate("size-not-sum", fmt.Sprintf("Size() = %d after 300 full writes of 64 KiB", pw.Size()), nil)
+		}
+		s.Evaluations++
+		s.Nontrivial("no-consumer-run")
 	}
 }
